@@ -93,6 +93,13 @@ class CoreStub:
     def outstanding(self):
         return sum(len(q) for q in self.queues)
 
+    def writes_done(self):
+        return sum(1 for b in self.wbeats[0])
+
+    def write_sequence(self):
+        """(addr, data, we) of port 0's write beats that carried data, in order"""
+        return [(a, d, we) for (_, a, d, we, valid) in self.wbeats[0] if valid]
+
     def process(self):
         yield "passive"
         ports = self.ports
